@@ -215,7 +215,7 @@ pub fn action_alphabet<Q: Qx>(rich: bool) -> Vec<Act> {
     let minpos = 1u32;
     let maxpos = (1u32 << (n - 1)) - 1;
     let neg = |x: u32| x.wrapping_neg() & m;
-    let full = one | (one - 1); // 1.111..1 (just below 2)
+    let full = one + (one >> (<Q::P as Fx>::ES + 1)) - 1; // 1.111..1 (the pattern just below 2.0)
     let onep = one + 1; // 1 + ulp
     let nar = 1u32 << (n - 1);
     let mut a = vec![
